@@ -47,6 +47,22 @@ extern void cm_native_error(const char *file, int line);
 #define CM_ABS(x) __builtin_fabs(x)
 #define CM_INIT(member, value) member = (value)
 
+/* CoordinateVector<T>: three components, default constructor zeroes them
+ * (CoordinateVector.hpp:68); .x() .y() .z() are lowered to .c[0..2] */
+struct cm_cv_double { double c[3]; };
+struct cm_cv_int_fast32_t { int_fast32_t c[3]; };
+struct cm_cv_uint_fast32_t { uint_fast32_t c[3]; };
+struct cm_cv_int { int c[3]; };
+struct cm_cv_bool { bool c[3]; };
+
+/* delete p: C++ allows deleting a null pointer; anything else must be a live
+ * allocation - CBMC's pointer checks on free() are exactly that obligation */
+#include <stdlib.h>
+#define CM_DELETE(p) free(p)
+#define CM_DELETE_ARRAY(p) free(p)
+/* TRUSTED: operator new returns fresh memory and does not fail (it throws instead) */
+#define CM_NEW_ARRAY(T, n) ((T *)malloc(sizeof(T) * (n)))
+
 /* bit pattern of a double, for predicates that must not introduce FP ops */
 #define CM_BITS(x) (*(const uint64_t *)&(x))
 #define CM_ISNAN(x) ((x) != (x))
